@@ -48,7 +48,7 @@ def DateC.ident : DateC String := ⟨fun s => s, fun s => some s⟩
 inductive DateVal (δ : Type) where
   | date (d : δ)
   | text (s : String)
-  deriving Repr, DecidableEq, BEq
+  deriving Repr, DecidableEq
 
 /-- one metadata value (per ID and category). `list` stands for a Python list or tuple. -/
 inductive MdVal (α : Type) where
@@ -58,7 +58,7 @@ inductive MdVal (α : Type) where
   | bool (b : Bool)
   | list (l : List String)
   | none
-  deriving Repr, DecidableEq, BEq, Inhabited
+  deriving Repr, DecidableEq, Inhabited
 
 abbrev MdE (α : Type) := List (String × MdVal α)
 
@@ -74,7 +74,7 @@ structure Src (α : Type) where
   /-- group metadata: key ↦ (data_type, payload); `[]` stands for `None` -/
   ogmd : List (String × String × String) := []
   sgmd : List (String × String × String) := []
-  deriving Repr, DecidableEq, BEq
+  deriving Repr, DecidableEq
 
 def Src.ids (t : Src α) : Axis → List Id
   | .obs => t.obs
@@ -90,52 +90,52 @@ def Src.gmd (t : Src α) : Axis → List (String × String × String)
 
 inductive Kind where
   | f64 | i32 | i64 | bool | vlenStr | fixStr | other
-  deriving Repr, DecidableEq, BEq, Inhabited
+  deriving Repr, DecidableEq, Inhabited
 
 inductive Cell (α : Type) where
   | f (a : α)
   | i (n : Int)
   | b (v : Bool)
   | s (x : Bytes)
-  deriving Repr, DecidableEq, BEq
+  deriving Repr, DecidableEq
 
 inductive Data (α : Type) where
   | d1 (cells : List (Cell α))
   | d2 (ncol : Nat) (rows : List (List (Cell α)))
   | opaque
-  deriving Repr, DecidableEq, BEq
+  deriving Repr, DecidableEq
 
 structure DSet (α : Type) where
   kind : Kind
   data : Data α
   dataType : Option String := none
-  deriving Repr, DecidableEq, BEq
+  deriving Repr, DecidableEq
 
 inductive Attr where
   | str (s : String)
   | ints (l : List Int)
   | int (n : Int)
   | other
-  deriving Repr, DecidableEq, BEq
+  deriving Repr, DecidableEq
 
 structure MatGrp (α : Type) where
   data : Option (DSet α)
   indices : Option (DSet α)
   indptr : Option (DSet α)
-  deriving Repr, DecidableEq, BEq
+  deriving Repr, DecidableEq
 
 structure AxGrp (α : Type) where
   ids : Option (DSet α)
   md : Option (List (String × DSet α))
   gmd : Option (List (String × DSet α))
   matrix : Option (MatGrp α)
-  deriving Repr, DecidableEq, BEq
+  deriving Repr, DecidableEq
 
 structure H5 (α : Type) where
   attrs : List (String × Attr)
   obs : Option (AxGrp α)
   samp : Option (AxGrp α)
-  deriving Repr, DecidableEq, BEq
+  deriving Repr, DecidableEq
 
 def H5.ax (h : H5 α) : Axis → Option (AxGrp α)
   | .obs => h.obs
@@ -145,7 +145,7 @@ def H5.ax (h : H5 α) : Axis → Option (AxGrp α)
 inductive Row (α : Type) where
   | scalar (c : Cell α)
   | vec (cs : List (Cell α))
-  deriving Repr, DecidableEq, BEq
+  deriving Repr, DecidableEq
 
 def Data.rowsOf : Data α → Option (List (Row α))
   | .d1 cells => some (cells.map .scalar)
@@ -411,7 +411,7 @@ structure SpecTable (α : Type) where
   samp : List String
   byObs : List (List α)
   bySamp : List (List α)
-  deriving Repr, DecidableEq, BEq
+  deriving Repr, DecidableEq
 
 /-- N x M from `shape`, `nnz`, IDs from `observation/ids` and `sample/ids`, the matrix once from
 the compressed-row copy and once from the compressed-column copy (transposed back to N x M) -/
